@@ -154,7 +154,8 @@ def runCase (hdr : List String) (prog : List Stmt) : String :=
 
 def handle (line : String) : String :=
   let line := line.trimAscii.toString
-  if line.startsWith "soak " then "soak (implementation only; the model's statement is theorem prompt_partial)"
+  if line == "profile on" || line == "profile off" then line   -- which of the two run loops executes is invisible to the model
+  else if line.startsWith "soak " then "soak (implementation only; the model's statement is theorem prompt_partial)"
   else if line.startsWith "tickcase " then "tickcase (implementation only; judged against the spec: no tick after the n-th, clean state)"
   else if line.startsWith "case " then
     match (line.drop 5).toString.splitOn "|" with
